@@ -381,6 +381,8 @@ func Run(r *vh.Run) {
 		runSeq(r, "rnd"+strconv.Itoa(i), s, []string{"mem", "cachemem", "cachebolt", "bolt"}, dir, n)
 		n++
 	}
+	// chain histories replayed over each backend
+	runStoreHistories(r, rng.Fork(), dir)
 	r.Assume("bbolt is not modelled: BoltChainDB is compared with the abstract Spec and the reference map only")
 	r.Assume("bucket handles are re-fetched for every operation (as DBStore.bucket does)")
 	r.Assume("values are non-empty byte strings (nil/empty values are not distinguished by the interface)")
